@@ -23,8 +23,8 @@ let rec z_of_pos (p : positive) : ZA.t =
 let to_z (x : z) : ZA.t =
   match x with Z0 -> ZA.zero | Zpos p -> z_of_pos p | Zneg p -> ZA.neg (z_of_pos p)
 
-let zs (s : string) : z = z_of (ZA.of_string (String.trim s))
-let sz (x : z) : string = ZA.to_string (to_z x)
+let zs (s : Stdlib.String.t) : z = z_of (ZA.of_string (String.trim s))
+let sz (x : z) : Stdlib.String.t = ZA.to_string (to_z x)
 let int_of_z (x : z) : int = ZA.to_int (to_z x)
 let z_of_int (i : int) : z = z_of (ZA.of_int i)
 
@@ -46,7 +46,7 @@ let opt f = function None -> "none" | Some x -> f x
 let bool_s b = if b then "true" else "false"
 
 (* ---- cell|w|fn|a|b ---- *)
-let run_cell (fields : string list) : string =
+let run_cell (fields : Stdlib.String.t list) : Stdlib.String.t =
   match fields with
   | [w; fn; a; b] ->
     let w = zs w and a = zs a and b = zs b in
@@ -74,33 +74,33 @@ let run_cell (fields : string list) : string =
 
 
 (* ---- hex, env, traces ---- *)
-let bytes_of_hex (h : string) : z list =
+let bytes_of_hex (h : Stdlib.String.t) : z list =
   let n = String.length h / 2 in
   List.init n (fun i -> z_of_int (int_of_string ("0x" ^ String.sub h (2 * i) 2)))
 
-let opt_nat (s : string) : nat option = if s = "-" then None else Some (nat_of_int (int_of_string s))
+let opt_nat (s : Stdlib.String.t) : nat option = if s = "-" then None else Some (nat_of_int (int_of_string s))
 
 (* env := <input-hex>,<absent 0/1>,<in_fail_at or ->,<out_present 0/1>,<out_fail_at or -> *)
-let env_of (s : string) : env =
+let env_of (s : Stdlib.String.t) : env =
   match split_on ',' s with
   | [inp; ab; ifa; op; ofa] ->
     { input = bytes_of_hex inp; in_absent = (ab = "1"); in_fail_at = opt_nat ifa;
       out_present = (op = "1"); out_fail_at = opt_nat ofa }
   | _ -> failwith "bad env"
 
-let hex2 (x : z) : string = Printf.sprintf "%02x" (int_of_z x)
+let hex2 (x : z) : Stdlib.String.t = Printf.sprintf "%02x" (int_of_z x)
 let ev_s = function
   | EvIn b -> "I:" ^ hex2 b
   | EvEof -> "I:eof"
   | EvInFail -> "I:!"
   | EvOut b -> "O:" ^ hex2 b
   | EvOutFail b -> "O!:" ^ hex2 b
-let trace_s (i : iost) : string =
+let trace_s (i : iost) : Stdlib.String.t =
   (* i.trace is most-recent-first; rev_map yields oldest-first without deep recursion *)
   let strs = List.rev_map ev_s i.trace in
   if strs = [] then "-" else String.concat " " strs
 
-let outcome_s (get_io : 'a -> iost) (o : 'a outcome) : string =
+let outcome_s (get_io : 'a -> iost) (o : 'a outcome) : Stdlib.String.t =
   let tag = match o with
     | Done _ -> "done" | Stopped _ -> "stopped" | Interrupted _ -> "interrupted"
     | Errored (p, _) -> "err:" ^ sz p | OutOfFuel _ -> "fuel" in
@@ -108,9 +108,9 @@ let outcome_s (get_io : 'a -> iost) (o : 'a outcome) : string =
   tag ^ " " ^ fin ^ " " ^ trace_s (get_io (outcome_state o))
 
 (* ---- token streams ---- *)
-type toks = { mutable l : string list }
-let toks_of (s : string) : toks = { l = List.filter (fun x -> x <> "") (split_on ' ' s) }
-let tok (t : toks) : string = match t.l with x :: r -> t.l <- r; x | [] -> failwith "eof tokens"
+type toks = { mutable l : Stdlib.String.t list }
+let toks_of (s : Stdlib.String.t) : toks = { l = List.filter (fun x -> x <> "") (split_on ' ' s) }
+let tok (t : toks) : Stdlib.String.t = match t.l with x :: r -> t.l <- r; x | [] -> failwith "eof tokens"
 let tz_ (t : toks) : z = zs (tok t)
 let ti (t : toks) : int = int_of_string (tok t)
 
@@ -278,7 +278,7 @@ let run_bfcycle = function
 
 (* tape|w|ops|allocs  (ops as in the harness; allocs = string of 0/1 answers) ->
    model observations with the spec's verdict: r=<v> , c=<model>/<must> , - ; then status *)
-let parse_tops (w : z) (s : string) : top list =
+let parse_tops (w : z) (s : Stdlib.String.t) : top list =
   let m = Model.Z.pow (z_of_int 2) w in
   List.filter_map (fun x ->
       if x = "" then None else
@@ -317,7 +317,7 @@ let run_tape = function
 
 (* svec|N|ops -> one observation per op, then the ledger summary *)
 let rb = function "0" -> false | "1" -> true | x -> failwith ("bad reg " ^ x)
-let parse_sops (s : string) : sop list =
+let parse_sops (s : Stdlib.String.t) : sop list =
   List.filter_map (fun x ->
       if x = "" then None else
         match split_on ':' x with
@@ -336,7 +336,7 @@ let parse_sops (s : string) : sop list =
         | ["it"; r] -> Some (OIter (rb r))
         | _ -> failwith ("bad svec op " ^ x)) (split_on ';' s)
 
-let elems_s (l : (nat * z) list) : string =
+let elems_s (l : (nat * z) list) : Stdlib.String.t =
   "[" ^ String.concat " " (List.map (fun (i, v) -> string_of_int (int_of_nat i) ^ "." ^ sz v) l) ^ "]"
 
 let run_svec = function
@@ -363,7 +363,7 @@ let run_svec = function
 
 
 (* expr|w|prog|envs : same grammar and output as harness/src/expr.rs *)
-let parts_text (e : expr) : string =
+let parts_text (e : expr) : Stdlib.String.t =
   if e = [] then "0" else
     String.concat "+" (List.map (fun (c, vs) -> sz c ^ ":" ^ String.concat "," (List.map sz vs)) e)
 
@@ -460,7 +460,106 @@ let run_bcwf = function
     if ok && int_of_z r = 0 then "ok" else if ok || int_of_z r = 0 then "ERR inconsistent" else "reject " ^ sz r
   | _ -> "ERR bad bcwf line"
 
-let handlers : (string * (string list -> string)) list ref = ref [ ("cell", run_cell); ("bf", run_bf); ("inplace", run_inplace); ("ir", run_ir); ("bc", run_bc); ("parse", run_parse); ("bfbig", run_bfbig); ("bcwf", run_bcwf); ("bfx", run_bfx); ("expr", run_expr); ("svec", run_svec); ("tape", run_tape); ("bfcycle", run_bfcycle); ("irbig", run_irbig) ]
+
+(* ---- Coq strings <-> OCaml strings ---- *)
+let coq_ascii (c : char) : ascii =
+  let n = Char.code c in
+  let b i = (n lsr i) land 1 = 1 in
+  Ascii (b 0, b 1, b 2, b 3, b 4, b 5, b 6, b 7)
+let char_of_ascii (Ascii (b0, b1, b2, b3, b4, b5, b6, b7)) : char =
+  let v b i = if b then 1 lsl i else 0 in
+  Char.chr (v b0 0 + v b1 1 + v b2 2 + v b3 3 + v b4 4 + v b5 5 + v b6 6 + v b7 7)
+let coq_string (s : Stdlib.String.t) : Model.string =
+  let r = ref EmptyString in
+  for i = Stdlib.String.length s - 1 downto 0 do r := String (coq_ascii s.[i], !r) done; !r
+let ocaml_string (s : Model.string) : Stdlib.String.t =
+  let b = Buffer.create 64 in
+  let rec go = function EmptyString -> () | String (c, r) -> Buffer.add_char b (char_of_ascii c); go r in
+  go s; Buffer.contents b
+let str_of_hex (h : Stdlib.String.t) : Stdlib.String.t =
+  Stdlib.String.init (Stdlib.String.length h / 2) (fun i -> Char.chr (int_of_string ("0x" ^ Stdlib.String.sub h (2 * i) 2)))
+let hex_of_str (s : Stdlib.String.t) : Stdlib.String.t =
+  Stdlib.String.concat "" (List.map (fun c -> Printf.sprintf "%02x" (Char.code c)) (List.of_seq (Stdlib.String.to_seq s)))
+
+(* cli|name:kind:content-hex,...|arg-hex,arg-hex,...   (file kinds: ok, enc (bad encoding: content = valid prefix), missing)
+   -> help <exit> | nothing <exit> | run <w> <kind> <opt> <mode> <limit> <code-hex> | panic ; then " diag=" count *)
+let run_cli = function
+  | [files; args] ->
+    let files = List.filter_map (fun f -> if f = "" then None else
+                                    match split_on ':' f with
+                                    | [n; k; c] -> Some (str_of_hex n, (k, str_of_hex c))
+                                    | _ -> failwith "bad file spec") (split_on ',' files) in
+    let fs (name : Model.string) : fileres =
+      match List.assoc_opt (ocaml_string name) files with
+      | Some ("ok", c) -> FOk (coq_string c)
+      | Some ("enc", c) -> FBadEncoding (coq_string c)
+      | _ -> FMissing in
+    let args = List.filter_map (fun a -> if a = "-" then Some (coq_string "") else if a = "" then None else Some (coq_string (str_of_hex a))) (split_on ',' args) in
+    let st = cli_run spec_table spec_defaults fs args in
+    let kind_s = function KPrintIr -> "print-ir" | KPrintBc -> "print-bc" | KPrintBc2 -> "print-jit-bc" | KInplace -> "inplace"
+                        | KIrInt -> "ir" | KBcInt -> "bc" | KPrintMc -> "print-jit-mc" | KBaseJit -> "jit" in
+    let d = match decide spec_widths st with
+      | DHelp e -> "help " ^ sz e
+      | DNothing e -> "nothing " ^ sz e
+      | DRun (w, k, o, m, l, c) -> Printf.sprintf "run %s %s %s %s %s %s" (sz w) (kind_s k) (sz o) (ocaml_string m) (sz l) (hex_of_str (ocaml_string c))
+      | DPanic -> "panic" in
+    d ^ " diag=" ^ string_of_int (List.length st.c_diag)
+  | _ -> "ERR bad cli line"
+
+
+(* ---- C13 ---- *)
+let loc_text = function
+  | Mem k -> "m " ^ sz k | MemZero k -> "mz " ^ sz k | Tmp t -> "t " ^ sz t | Imm c -> "# " ^ sz c
+let instr_text = function
+  | Noop -> "n" | Scan (c, s) -> "s " ^ sz c ^ " " ^ sz s | MovP s -> "m " ^ sz s | Inp d -> "i " ^ sz d | Outp s -> "o " ^ sz s
+  | BrZ (c, o) -> "z " ^ sz c ^ " " ^ sz o | BrNZ (c, o) -> "nz " ^ sz c ^ " " ^ sz o
+  | Add (d, a, b) -> "a " ^ loc_text d ^ " " ^ loc_text a ^ " " ^ loc_text b
+  | Sub (d, a, b) -> "u " ^ loc_text d ^ " " ^ loc_text a ^ " " ^ loc_text b
+  | Mul (d, a, b) -> "x " ^ loc_text d ^ " " ^ loc_text a ^ " " ^ loc_text b
+  | Copy (d, a) -> "c " ^ loc_text d ^ " " ^ loc_text a
+
+(* formsnf|w|bc-text : every arithmetic instruction of a generated bytecode must be a fixed point of the
+   model's reordering (after undoing fusion) and be covered by both selectors *)
+let run_formsnf = function
+  | [w; bc] ->
+    let w = zs w in
+    let p = parse_bc (toks_of bc) in
+    let bad = ref [] in
+    List.iteri (fun idx i ->
+        let u = unzero_instr i in
+        if reorder w u <> u then bad := ("notnormal@" ^ string_of_int idx ^ ":" ^ instr_text i) :: !bad
+        else if not (int_covers i) then bad := ("int-uncovered@" ^ string_of_int idx) :: !bad
+        else if u = i && not (jit_covers i) && (match i with Scan _ -> false | _ -> true) then bad := ("jit-uncovered@" ^ string_of_int idx ^ ":" ^ instr_text i) :: !bad) p.bp_code;
+    if !bad = [] then "ok" else Stdlib.String.concat "," (List.rev !bad)
+  | _ -> "ERR bad formsnf line"
+
+(* shapes|w : one-instruction programs for every normalised shape over a small index domain *)
+let run_shapes = function
+  | [w] ->
+    let w = zs w in
+    let zi = z_of_int in
+    let mems = [Mem (zi 0); Mem (zi 1)] and tmps = [Tmp (zi 0); Tmp (zi 1); Tmp (zi 2); Tmp (zi 11); Tmp (zi 12)] in
+    let imms = [Imm (zi 0); Imm (zi 1); Imm (Model.Z.sub (Model.Z.pow (zi 2) w) (zi 1)); Imm (zi 5); Imm (Model.Z.sub (Model.Z.pow (zi 2) w) (zi 3))] in
+    let dsts = mems @ tmps and srcs = mems @ tmps @ imms in
+    let out = Hashtbl.create 1024 in
+    let add i = if pre_shape i then begin
+        let r = reorder w i in
+        Hashtbl.replace out (instr_text r) ();
+        (* fused variants for the interpreter *)
+        (match r with
+         | Add (d, Mem a, b) -> Hashtbl.replace out (instr_text (Add (d, MemZero a, b)) ^ " F") ()
+         | Mul (d, a, Mem b) -> Hashtbl.replace out (instr_text (Mul (d, a, MemZero b)) ^ " F") ()
+         | Sub (d, Mem a, Mem b) -> Hashtbl.replace out (instr_text (Sub (d, MemZero a, MemZero b)) ^ " F") ()
+         | Copy (d, Mem a) -> Hashtbl.replace out (instr_text (Copy (d, MemZero a)) ^ " F") ()
+         | _ -> ())
+      end in
+    List.iter (fun d -> List.iter (fun a ->
+        add (Copy (d, a));
+        List.iter (fun b -> add (Add (d, a, b)); add (Sub (d, a, b)); add (Mul (d, a, b))) srcs) srcs) dsts;
+    Stdlib.String.concat ";" (List.sort compare (Hashtbl.fold (fun k () acc -> k :: acc) out []))
+  | _ -> "ERR bad shapes line"
+
+let handlers : (Stdlib.String.t * (Stdlib.String.t list -> Stdlib.String.t)) list ref = ref [ ("cell", run_cell); ("bf", run_bf); ("inplace", run_inplace); ("ir", run_ir); ("bc", run_bc); ("parse", run_parse); ("bfbig", run_bfbig); ("formsnf", run_formsnf); ("shapes", run_shapes); ("cli", run_cli); ("bcwf", run_bcwf); ("bfx", run_bfx); ("expr", run_expr); ("svec", run_svec); ("tape", run_tape); ("bfcycle", run_bfcycle); ("irbig", run_irbig) ]
 
 let () =
   (try
